@@ -561,8 +561,12 @@ namespace world
                 else
                     run = 0;
             }
-            // a run of m consecutive invalid samples spans (m-1)/N of the motion at least
-            double steps = maxrun == 0 ? 0.0 : (double)(maxrun - 1) / N * n;
+            // a run of m consecutive invalid samples spans (m-1)/N of the motion at least. It is measured against the
+            // space's resolution length (longest valid segment / count factor, the largest spacing between two
+            // checks), an absolute length: a path made of many tiny motions (intermediate states) can legitimately
+            // have one of them lie mostly inside an obstacle that hides between two checks of the validated motion.
+            double resLen = w.ss->getLongestValidSegmentLength() / std::max(1u, w.ss->getValidSegmentCountFactor());
+            double steps = maxrun == 0 ? 0.0 : (double)(maxrun - 1) / N * w.ss->distance(v[i], v[i + 1]) / resLen;
             if (steps > r.worstRunSteps)
             {
                 r.worstRunSteps = steps;
